@@ -219,7 +219,8 @@ fn write_maybe_rpx_dimension(
 ) {
     let unit_str: &str = &unit;
     if unit_str == "rpx" {
-        let new_value = value * 100. / ss.options.rpx_ratio;
+        // (the intermediate product must not overflow single precision)
+        let new_value = (value as f64 * 100. / ss.options.rpx_ratio as f64) as f32;
         let new_int_value = if (new_value.round() - new_value).abs() <= f32::EPSILON
             && new_value.abs() < i32::MAX as f32
         {
